@@ -9,7 +9,15 @@ import traceback
 import warnings
 from pathlib import Path
 
-logging.disable(logging.CRITICAL)
+if os.environ.get("PV_LOGGING") == "debug":
+    # configuration "debug-logging": every logger enabled at DEBUG (as the repository's own pytest.ini does), records
+    # discarded - what the library computes must not depend on whether somebody listens
+    logging.disable(logging.NOTSET)
+    logging.getLogger().setLevel(logging.DEBUG)
+    logging.getLogger().addHandler(logging.NullHandler())
+    logging.lastResort = None
+else:
+    logging.disable(logging.CRITICAL)
 warnings.filterwarnings("ignore")
 
 _TMP = None
